@@ -110,6 +110,8 @@ type Origin struct {
 	Conns atomic.Int64
 	// PingDelay of this origin (nanoseconds); 0 = the farm's
 	PingDelay atomic.Int64
+	// PingStatus: status answered to health-check pings (0 = 200); the origin keeps listening and serving
+	PingStatus atomic.Int64
 }
 
 // NewFarm starts n origins
@@ -215,6 +217,10 @@ func (o *Origin) handle(w http.ResponseWriter, r *http.Request) {
 		}
 		if d > 0 {
 			time.Sleep(time.Duration(d))
+		}
+		if st := o.PingStatus.Load(); st != 0 {
+			w.WriteHeader(int(st))
+			return
 		}
 		w.WriteHeader(200)
 		return
